@@ -108,13 +108,16 @@ Example C13_program_nonvacuous :
   = spec_run [3; 7; 4100; 9000] [CSeek 5; CAdvance; CBitset 4100; CCount].
 Proof. split; [apply valid_progb_spec; vm_compute; reflexivity|vm_compute; reflexivity]. Qed.
 
-(* F131: the faithful model of BufferedUnionScorer::seek_danger violates the seek_danger contract for a
-   target below its window: an intersection driving a union-of-unions misses document 10000. *)
+(* F131 (fixed in /repo; the pinned flag UNION_DANGER_GUARDS_CURRENT_DOC selects the shape of the model):
+   the OLD shape of BufferedUnionScorer::seek_danger (guard = false) violates the seek_danger contract for a
+   target below its window: an intersection driving a union-of-unions misses document 10000.  With the shape
+   read from the current source the same run agrees with the list semantics. *)
 Definition F131_a : list N := [1; 5000; 10000].
 Definition F131_cs : list (list N + list (list N)) := [inr [[10000]; [10001]]; inl [1; 19990; 19991; 19992; 19993; 19994]].
+Definition F131_sem : list N := sem_inter [F131_a; sem_union [sem_union [[10000]; [10001]]; [1; 19990; 19991; 19992; 19993; 19994]]].
 Theorem C13_union_in_union_refuted :
-  exists prog,
-    valid_prog (sem_inter [F131_a; sem_union [sem_union [[10000]; [10001]]; [1; 19990; 19991; 19992; 19993; 19994]]]) prog /\
-    run_inter_luu F131_a F131_cs true false prog
-    <> spec_run (sem_inter [F131_a; sem_union [sem_union [[10000]; [10001]]; [1; 19990; 19991; 19992; 19993; 19994]]]) prog.
+  exists prog, valid_prog F131_sem prog /\ run_inter_luu_g false F131_a F131_cs true false prog <> spec_run F131_sem prog.
 Proof. exists [CAdvance]. split; [exact I|vm_compute; discriminate]. Qed.
+Example C13_union_in_union_current_source :
+  run_inter_luu F131_a F131_cs true false [CAdvance; CAdvance; CAdvance] = spec_run F131_sem [CAdvance; CAdvance; CAdvance].
+Proof. vm_compute. reflexivity. Qed.
